@@ -21,7 +21,7 @@ use std::time::{Duration, Instant};
 
 pub fn defs() -> Vec<ScenDef> {
     let d = |name, f, fire| ScenDef { name, f, fire, gate_sites: &[], pool_cap: None, only_sites: &[] };
-    vec![d("io", io as fn(&mut Exec) -> Res, false), d("tcp", tcp, false), d("dgram", dgram, false), d("iot", iot, false), d("iocan", iocan, true), d("unixsrv", unixsrv, false), d("iochurn", iochurn, false), d("iocant", iocant, true)]
+    vec![d("io", io as fn(&mut Exec) -> Res, false), d("tcp", tcp, false), d("dgram", dgram, false), d("iot", iot, false), d("iocan", iocan, true), d("unixsrv", unixsrv, false), d("iochurn", iochurn, false), d("iocant", iocant, true), d("ioext", ioext, false)]
 }
 
 type Grave = Arc<std::sync::Mutex<Vec<Box<dyn Any + Send>>>>;
@@ -928,6 +928,376 @@ fn iocan(x: &mut Exec) -> Res {
     grave.lock().unwrap().clear();
     if let Some(e) = err.lock().unwrap().take() {
         return viol(format!("bystander I/O disturbed by the cancel: {}", e));
+    }
+    Ok(())
+}
+
+// ------------------------------------------------------------------------------------ C17 / C18: the rest of the socket API
+/// generic writer / reader over anything that is Write / Read (split halves, CoIo): the same deterministic stream
+fn write_gen<W: Write>(a: &Actor, w: &mut W, fd: u64, total: usize, r: &mut Rng, err: &std::sync::Mutex<Option<String>>) {
+    let mut sent = 0usize;
+    while sent < total {
+        let big = r.chance(1, 8);
+        let n = (1 + r.below(if big { 120_000 } else { 6000 }) as usize).min(total - sent);
+        let buf: Vec<u8> = (sent..sent + n).map(byte_at).collect();
+        a.call("write", fd);
+        if let Err(e) = w.write_all(&buf) {
+            *err.lock().unwrap() = Some(format!("write error {:?}", e));
+            return;
+        }
+        a.ret("write", fd, n as u64);
+        sent += n;
+        if r.chance(1, 6) {
+            nap(r.below(600));
+        }
+    }
+}
+fn read_gen<R: Read>(a: &Actor, rd: &mut R, fd: u64, total: usize, r: &mut Rng, err: &std::sync::Mutex<Option<String>>) {
+    let mut got = 0usize;
+    loop {
+        let big = r.chance(1, 8);
+        let mut buf = vec![0u8; 1 + r.below(if big { 90_000 } else { 5000 }) as usize];
+        a.call("read", fd);
+        match rd.read(&mut buf) {
+            Ok(0) => {
+                a.ret("read", fd, 0);
+                break;
+            }
+            Ok(n) => {
+                a.ret("read", fd, n as u64);
+                for k in 0..n {
+                    if buf[k] != byte_at(got + k) {
+                        *err.lock().unwrap() = Some(format!("stream corrupted at offset {} (got {:#x}, want {:#x})", got + k, buf[k], byte_at(got + k)));
+                        return;
+                    }
+                }
+                got += n;
+                if r.chance(1, 5) {
+                    nap(r.below(400));
+                }
+            }
+            Err(e) => {
+                *err.lock().unwrap() = Some(format!("read error {:?}", e));
+                return;
+            }
+        }
+    }
+    if got != total {
+        *err.lock().unwrap() = Some(format!("end of stream after {} of {} bytes", got, total));
+    }
+}
+
+/// a listening TCP socket whose accept queue is full: further connects neither succeed nor fail, they wait
+fn full_backlog_listener() -> std::io::Result<(std::net::TcpListener, Vec<std::net::TcpStream>, std::net::SocketAddr)> {
+    use std::os::unix::io::FromRawFd;
+    unsafe {
+        let fd = libc::socket(libc::AF_INET, libc::SOCK_STREAM | libc::SOCK_CLOEXEC, 0);
+        if fd < 0 {
+            return Err(std::io::Error::last_os_error());
+        }
+        let l = std::net::TcpListener::from_raw_fd(fd);
+        let ip: std::net::Ipv4Addr = lo().parse().unwrap();
+        let sa = libc::sockaddr_in { sin_family: libc::AF_INET as u16, sin_port: 0, sin_addr: libc::in_addr { s_addr: u32::from_ne_bytes(ip.octets()) }, sin_zero: [0; 8] };
+        if libc::bind(fd, &sa as *const _ as *const libc::sockaddr, std::mem::size_of::<libc::sockaddr_in>() as u32) != 0 || libc::listen(fd, 0) != 0 {
+            return Err(std::io::Error::last_os_error());
+        }
+        let addr = l.local_addr()?;
+        // fill the queue (backlog 0 admits one connection; the ones after it get their SYN dropped): plain non-blocking connects
+        let mut fillers = vec![];
+        for _ in 0..3 {
+            let s = libc::socket(libc::AF_INET, libc::SOCK_STREAM | libc::SOCK_NONBLOCK | libc::SOCK_CLOEXEC, 0);
+            if s < 0 {
+                return Err(std::io::Error::last_os_error());
+            }
+            let st = std::net::TcpStream::from_raw_fd(s);
+            let port = addr.port().to_be();
+            let sa2 = libc::sockaddr_in { sin_family: libc::AF_INET as u16, sin_port: port, sin_addr: libc::in_addr { s_addr: u32::from_ne_bytes(ip.octets()) }, sin_zero: [0; 8] };
+            libc::connect(s, &sa2 as *const _ as *const libc::sockaddr, std::mem::size_of::<libc::sockaddr_in>() as u32);
+            fillers.push(st);
+        }
+        std::thread::sleep(Duration::from_millis(2));
+        Ok((l, fillers, addr))
+    }
+}
+
+fn ioext(x: &mut Exec) -> Res {
+    use may::io::{CoIo, SplitIo, WaitIo};
+    let kind = x.rng.below(6);
+    let err = Arc::new(std::sync::Mutex::new(None::<String>));
+    let grave: Grave = Default::default();
+    match kind {
+        // ---- split(): both directions of one connection at once, four parties
+        0 | 1 => {
+            let use_tcp = kind == 0;
+            let (t1, t2) = (x.rng.below(if x.thorough { 300_000 } else { 50_000 }) as usize, x.rng.below(if x.thorough { 300_000 } else { 50_000 }) as usize);
+            let sb = *x.rng.pick(&[4608, 8192, 0]);
+            let cos: Vec<bool> = (0..4).map(|_| x.rng.chance(3, 4)).collect();
+            x.desc = format!("split() full duplex over {}: {} bytes one way, {} the other, sndbuf {}, parties co={:?}", if use_tcp { "tcp" } else { "unix-stream" }, t1, t2, sb, cos);
+            macro_rules! duplex {
+                ($a:expr, $b:expr, $shut:expr) => {{
+                    let (a, b) = ($a, $b);
+                    if sb != 0 {
+                        set_sndbuf(a.as_raw_fd(), sb);
+                        set_sndbuf(b.as_raw_fd(), sb);
+                    }
+                    let (ar, aw) = a.split().map_err(|e| Fail::Inconclusive(format!("split: {}", e)))?;
+                    let (br, bw) = b.split().map_err(|e| Fail::Inconclusive(format!("split: {}", e)))?;
+                    let (mut r1, mut r2, mut r3, mut r4) = (x.rng.fork(), x.rng.fork(), x.rng.fork(), x.rng.fork());
+                    let (e1, e2, e3, e4) = (err.clone(), err.clone(), err.clone(), err.clone());
+                    let (g1, g2, g3, g4) = (grave.clone(), grave.clone(), grave.clone(), grave.clone());
+                    x.spawn("a-writer", cos[0], move |act| {
+                        let mut w = aw;
+                        let fd = w.as_raw_fd() as u64;
+                        write_gen(act, &mut w, fd, t1, &mut r1, &e1);
+                        $shut(w.inner());
+                        g1.lock().unwrap().push(Box::new(w));
+                    });
+                    x.spawn("b-reader", cos[1], move |act| {
+                        let mut r = br;
+                        let fd = r.as_raw_fd() as u64;
+                        read_gen(act, &mut r, fd, t1, &mut r2, &e2);
+                        g2.lock().unwrap().push(Box::new(r));
+                    });
+                    x.spawn("b-writer", cos[2], move |act| {
+                        let mut w = bw;
+                        let fd = w.as_raw_fd() as u64;
+                        write_gen(act, &mut w, fd, t2, &mut r3, &e3);
+                        $shut(w.inner());
+                        g3.lock().unwrap().push(Box::new(w));
+                    });
+                    x.spawn("a-reader", cos[3], move |act| {
+                        let mut r = ar;
+                        let fd = r.as_raw_fd() as u64;
+                        read_gen(act, &mut r, fd, t2, &mut r4, &e4);
+                        g4.lock().unwrap().push(Box::new(r));
+                    });
+                }};
+            }
+            if use_tcp {
+                let (a, b) = tcp_pair().map_err(|e| Fail::Inconclusive(format!("tcp_pair: {}", e)))?;
+                duplex!(a, b, |s: &TcpStream| {
+                    s.shutdown(std::net::Shutdown::Write).ok();
+                });
+            } else {
+                let (a, b) = UnixStream::pair().map_err(|e| Fail::Inconclusive(format!("pair: {}", e)))?;
+                duplex!(a, b, |s: &UnixStream| {
+                    s.shutdown(std::net::Shutdown::Write).ok();
+                });
+            }
+        }
+        // ---- peek: looks without taking, blocks like read, 0 at end of stream
+        2 => {
+            let total = x.rng.range(1, if x.thorough { 60_000 } else { 12_000 }) as usize;
+            let (a, b) = tcp_pair().map_err(|e| Fail::Inconclusive(format!("tcp_pair: {}", e)))?;
+            let (w_co, r_co) = (x.rng.chance(1, 2), x.rng.chance(3, 4));
+            x.desc = format!("tcp peek/read alternation over {} bytes, writer {}, reader {}", total, if w_co { "co" } else { "th" }, if r_co { "co" } else { "th" });
+            let (mut r1, mut r2) = (x.rng.fork(), x.rng.fork());
+            let (e1, e2, g1, g2) = (err.clone(), err.clone(), grave.clone(), grave.clone());
+            x.spawn("writer", w_co, move |act| {
+                let mut a = a;
+                let fd = a.as_raw_fd() as u64;
+                write_gen(act, &mut a, fd, total, &mut r1, &e1);
+                a.shutdown(std::net::Shutdown::Write).ok();
+                g1.lock().unwrap().push(Box::new(a));
+            });
+            x.spawn("reader", r_co, move |act| {
+                let mut b = b;
+                let fd = b.as_raw_fd() as u64;
+                let mut got = 0usize;
+                loop {
+                    let mut pb = vec![0u8; 1 + r2.below(3000) as usize];
+                    act.call("recv", fd); // peek: a receive-side call for the kernel-view oracle
+                    let n = match b.peek(&mut pb) {
+                        Ok(n) => n,
+                        Err(e) => {
+                            *e2.lock().unwrap() = Some(format!("peek error {:?}", e));
+                            return;
+                        }
+                    };
+                    act.ret("recv", fd, n as u64);
+                    if n == 0 {
+                        break;
+                    }
+                    for k in 0..n {
+                        if pb[k] != byte_at(got + k) {
+                            *e2.lock().unwrap() = Some(format!("peek at offset {} shows {:#x}, the stream has {:#x} there", got + k, pb[k], byte_at(got + k)));
+                            return;
+                        }
+                    }
+                    // what was peeked is still there: take some of it
+                    let take = 1 + r2.below(n as u64) as usize;
+                    let mut rb = vec![0u8; take];
+                    act.call("read", fd);
+                    match b.read(&mut rb) {
+                        Ok(m) if m >= 1 && m <= take => {
+                            act.ret("read", fd, m as u64);
+                            if rb[..m] != pb[..m] {
+                                *e2.lock().unwrap() = Some(format!("read after peek at offset {} returned other bytes than the peek", got));
+                                return;
+                            }
+                            got += m;
+                        }
+                        other => {
+                            *e2.lock().unwrap() = Some(format!("read of {} bytes after a peek that showed {} returned {:?}", take, n, other.map_err(|e| e.kind())));
+                            return;
+                        }
+                    }
+                }
+                if got != total {
+                    *e2.lock().unwrap() = Some(format!("peek reported end of stream after {} of {} bytes", got, total));
+                }
+                g2.lock().unwrap().push(Box::new(b));
+            });
+        }
+        // ---- connect_timeout: against a full accept queue it must fail, not early and not never; against a live one it connects
+        3 => {
+            let d_ms = x.rng.range(2, 12);
+            let n = x.rng.range(1, 3) as usize;
+            x.io_timeout_used(Duration::from_millis(d_ms));
+            x.desc = format!("connect_timeout({}ms) x{} against a listener whose accept queue is full, then against a live one", d_ms, n);
+            let (l, fillers, addr) = full_backlog_listener().map_err(|e| Fail::Inconclusive(format!("full_backlog_listener: {}", e)))?;
+            // is the queue really full? a std connect with a short timeout must not get through
+            if std::net::TcpStream::connect_timeout(&addr, Duration::from_millis(30)).is_ok() {
+                return Err(Fail::Inconclusive("the accept queue of the probe listener did not fill up".into()));
+            }
+            grave.lock().unwrap().push(Box::new((l, fillers)));
+            let live = TcpListener::bind(lo0()).map_err(|e| Fail::Inconclusive(format!("bind: {}", e)))?;
+            let live_addr = live.local_addr().unwrap();
+            let e1 = err.clone();
+            x.spawn("acceptor", true, move |act| {
+                for _ in 0..n {
+                    act.call("accept", live.as_raw_fd() as u64);
+                    match live.accept() {
+                        Ok((mut s, _)) => {
+                            act.ret("accept", 0, 1);
+                            let _ = s.write_all(b"k");
+                        }
+                        Err(e) => {
+                            *e1.lock().unwrap() = Some(format!("accept error {:?}", e));
+                            return;
+                        }
+                    }
+                }
+            });
+            for i in 0..n {
+                let e2 = err.clone();
+                let is_co = x.rng.chance(3, 4);
+                x.spawn(&format!("client{}", i), is_co, move |act| {
+                    let t0 = Instant::now();
+                    act.call("connect_timeout", d_ms);
+                    let r = TcpStream::connect_timeout(&addr, Duration::from_millis(d_ms));
+                    let el = t0.elapsed();
+                    act.ret("connect_timeout", d_ms, r.is_ok() as u64);
+                    match r {
+                        Ok(_) => *e2.lock().unwrap() = Some("connect_timeout succeeded against a listener whose accept queue is full".into()),
+                        Err(e) if e.kind() == std::io::ErrorKind::TimedOut => {
+                            if el < Duration::from_millis(d_ms) {
+                                *e2.lock().unwrap() = Some(format!("connect_timeout({}ms) failed with TimedOut after {:?}", d_ms, el));
+                            }
+                        }
+                        Err(e) => *e2.lock().unwrap() = Some(format!("connect_timeout against a full accept queue failed with {:?} instead of TimedOut", e.kind())),
+                    }
+                    // the same caller connects to a live listener with a generous timeout: must get through and read the greeting
+                    act.call("connect_timeout", 2000);
+                    let r = TcpStream::connect_timeout(&live_addr, Duration::from_millis(2000));
+                    act.ret("connect_timeout", 2000, r.is_ok() as u64);
+                    match r {
+                        Ok(mut s) => {
+                            let mut b = [0u8; 1];
+                            act.call("read", s.as_raw_fd() as u64);
+                            let rr = s.read(&mut b);
+                            act.ret("read", 0, 0);
+                            if !matches!(rr, Ok(1)) || b[0] != b'k' {
+                                *e2.lock().unwrap() = Some(format!("greeting after connect_timeout: {:?}", rr.map_err(|e| e.kind())));
+                            }
+                        }
+                        Err(e) => *e2.lock().unwrap() = Some(format!("connect_timeout(2s) to a listener with a waiting acceptor failed: {:?}", e.kind())),
+                    }
+                });
+            }
+        }
+        // ---- CoIo over a std socket pair: the generic wrapper must carry the stream like the native types
+        4 => {
+            let total = x.rng.below(if x.thorough { 200_000 } else { 40_000 }) as usize;
+            let (a, b) = std::os::unix::net::UnixStream::pair().map_err(|e| Fail::Inconclusive(format!("pair: {}", e)))?;
+            let sb = *x.rng.pick(&[4608, 8192, 0]);
+            if sb != 0 {
+                set_sndbuf(a.as_raw_fd(), sb);
+            }
+            x.desc = format!("CoIo<std UnixStream> one-way transfer of {} bytes, sndbuf {}", total, sb);
+            let a = CoIo::new(a).map_err(|_| Fail::Inconclusive("CoIo::new failed".into()))?;
+            let b = CoIo::new(b).map_err(|_| Fail::Inconclusive("CoIo::new failed".into()))?;
+            let (mut r1, mut r2) = (x.rng.fork(), x.rng.fork());
+            let (e1, e2, g1, g2) = (err.clone(), err.clone(), grave.clone(), grave.clone());
+            x.spawn("writer", true, move |act| {
+                let mut a = a;
+                let fd = a.as_raw_fd() as u64;
+                write_gen(act, &mut a, fd, total, &mut r1, &e1);
+                a.inner().shutdown(std::net::Shutdown::Write).ok();
+                g1.lock().unwrap().push(Box::new(a));
+            });
+            x.spawn("reader", true, move |act| {
+                let mut b = b;
+                let fd = b.as_raw_fd() as u64;
+                read_gen(act, &mut b, fd, total, &mut r2, &e2);
+                g2.lock().unwrap().push(Box::new(b));
+            });
+        }
+        // ---- wait_io: the caller does the non-blocking syscalls itself and only waits through may
+        _ => {
+            let total = x.rng.range(1, if x.thorough { 100_000 } else { 20_000 }) as usize;
+            let (a, b) = std::os::unix::net::UnixStream::pair().map_err(|e| Fail::Inconclusive(format!("pair: {}", e)))?;
+            let b = CoIo::new(b).map_err(|_| Fail::Inconclusive("CoIo::new failed".into()))?;
+            x.desc = format!("wait_io loop (non-blocking reads by the caller, WaitIo::wait_io on EAGAIN) over {} bytes from a plain thread writer", total);
+            let mut r1 = x.rng.fork();
+            let (e1, e2, g2) = (err.clone(), err.clone(), grave.clone());
+            x.spawn("writer", false, move |act| {
+                let mut a = a;
+                let fd = a.as_raw_fd() as u64;
+                write_gen(act, &mut a, fd, total, &mut r1, &e1);
+                a.shutdown(std::net::Shutdown::Write).ok();
+                std::thread::sleep(Duration::from_millis(1));
+                drop(a);
+            });
+            x.spawn("reader", true, move |act| {
+                let fd = b.as_raw_fd();
+                let mut got = 0usize;
+                let mut buf = vec![0u8; 3000];
+                loop {
+                    let n = unsafe { libc::read(fd, buf.as_mut_ptr() as *mut libc::c_void, buf.len()) };
+                    if n > 0 {
+                        for k in 0..n as usize {
+                            if buf[k] != byte_at(got + k) {
+                                *e2.lock().unwrap() = Some(format!("stream corrupted at offset {}", got + k));
+                                return;
+                            }
+                        }
+                        got += n as usize;
+                    } else if n == 0 {
+                        break;
+                    } else {
+                        let e = std::io::Error::last_os_error();
+                        if e.kind() != std::io::ErrorKind::WouldBlock {
+                            *e2.lock().unwrap() = Some(format!("read error {:?}", e));
+                            return;
+                        }
+                        act.call("read", fd as u64); // suspended until readable: judged by the kernel-view oracle like a read
+                        b.wait_io();
+                        act.ret("read", fd as u64, 0);
+                    }
+                }
+                if got != total {
+                    *e2.lock().unwrap() = Some(format!("end of stream after {} of {} bytes", got, total));
+                }
+                g2.lock().unwrap().push(Box::new(b));
+            });
+        }
+    }
+    let r = x.wait_all();
+    io_verdict(x, r)?;
+    grave.lock().unwrap().clear();
+    if let Some(e) = err.lock().unwrap().take() {
+        return viol(format!("socket API ({}): {}", ["split tcp", "split unix", "peek", "connect_timeout", "CoIo", "wait_io"][kind as usize], e));
     }
     Ok(())
 }
